@@ -200,7 +200,27 @@ func checkSyntaxInfixParts(node *InfixExpression) Object {
 		return newError(syntaxErrorTemplate, expr.String())
 	}
 
+	// the operands of a comparator are operands, not conditions: "a = b <= c" is not a sentence
+	if isComparator(node.Operator) {
+		if isConditionExpression(node.Left) {
+			return newError(syntaxErrorTemplate, node.Left.String())
+		}
+
+		if isConditionExpression(node.Right) {
+			return newError(syntaxErrorTemplate, node.Right.String())
+		}
+	}
+
 	return nil
+}
+
+func isConditionExpression(expr Expression) bool {
+	switch expr.(type) {
+	case *InfixExpression, *PrefixExpression, *BetweenExpression, *InExpression:
+		return true
+	}
+
+	return false
 }
 
 func evalInfixExpression(operator string, left, right Object) Object {
